@@ -12,6 +12,7 @@
 #ifndef VERIF_H_C04_UTIL_H
 #define VERIF_H_C04_UTIL_H
 #include "common.h"
+#include <new>
 #include "CppUTest/TestHarness.h"
 #include "CppUTest/MemoryLeakDetector.h"
 #include "CppUTest/TestMemoryAllocator.h"
@@ -546,12 +547,12 @@ struct Harness {
                 vh::emit("> invalidate %lu", addr);
                 det->invalidateMemory(ptr_of(addr));
             }
-            else if (o == "overloads" && w.size() >= 2 && c06 && (w[1] == "threadsafe" || w[1] == "plain")) {
+            else if (o == "overloads" && w.size() >= 2 && (w[1] == "threadsafe" || w[1] == "plain")) {
                 // which set of overloads the g* operations switch on (the thread-safe ones take the detector's mutex)
                 threadsafe = w[1] == "threadsafe";
                 vh::emit("> overloads %s", w[1].c_str());
             }
-            else if (o == "setcur" && w.size() >= 3 && c06) {
+            else if (o == "setcur" && w.size() >= 3) {
                 // setcur new|newarray|malloc <alloc>
                 int ai; if (!alloc_index(w[2], ai, true)) { vh::emit("> skip"); continue; }
                 if (w[1] == "new") setCurrentNewAllocator(allocs[ai].a);
@@ -560,37 +561,68 @@ struct Harness {
                 else { vh::emit("> skip"); continue; }
                 vh::emit("> setcur %s %d", w[1].c_str(), ai);
             }
-            else if ((o == "gnew" || o == "gnewarray" || o == "gmalloc") && w.size() >= 6 && c06) {
-                // gnew <label> <slot> <size> <file> <line>: the real operator new / new[] / cpputest_malloc_location
-                size_t size = (size_t) vh::to_u64(w[3]); int slot;
-                if (!slot_ok(w[2], size, slot) || !line_ok(w[5])) { vh::emit("> skip"); continue; }
-                TestMemoryAllocator* cur = o == "gnew" ? getCurrentNewAllocator() : o == "gnewarray" ? getCurrentNewArrayAllocator() : getCurrentMallocAllocator();
+            else if ((o == "gacq" && w.size() >= 7) || ((o == "gnew" || o == "gnewarray" || o == "gmalloc") && w.size() >= 6)) {
+                // gacq <form> <label> <slot> <size> <file> <line>: one of the real acquiring overloads of MemoryLeakWarningPlugin.cpp
+                //   new new_fi new_fs new_nt  newa newa_fi newa_fs newa_nt  malloc
+                //   (plain, (size, file, int line), (size, file, size_t line), (size, std::nothrow); [] variants; cpputest_malloc_location)
+                // gnew / gnewarray / gmalloc <label> <slot> <size> <file> <line> are new_fs / newa_fs / malloc
+                std::string form = o == "gacq" ? w[1] : o == "gnew" ? "new_fs" : o == "gnewarray" ? "newa_fs" : "malloc";
+                size_t k = o == "gacq" ? 2 : 1;
+                size_t size = (size_t) vh::to_u64(w[k + 2]); int slot;
+                static const char* forms[] = { "new", "new_fi", "new_fs", "new_nt", "newa", "newa_fi", "newa_fs", "newa_nt", "malloc" };
+                bool known = false; for (size_t j = 0; j < 9; j++) if (form == forms[j]) known = true;
+                if (!known || !slot_ok(w[k + 1], size, slot) || !line_ok(w[k + 4])) { vh::emit("> skip"); continue; }
+                const char* file = w[k + 3].c_str(); size_t line = (size_t) vh::to_u64(w[k + 4]);
+                TestMemoryAllocator* cur = form == "malloc" ? getCurrentMallocAllocator() : form.compare(0, 4, "newa") == 0 ? getCurrentNewArrayAllocator() : getCurrentNewAllocator();
                 int ai = index_of(cur); if (ai < 0) { vh::emit("> skip"); continue; }
-                vh::emit("> %s %lu %s %lu", o.c_str(), (unsigned long) size, w[4].c_str(), (unsigned long) vh::to_u64(w[5]));
+                vh::emit("> gacq %s %lu %s %lu", form.c_str(), (unsigned long) size, file, (unsigned long) line);
                 g_pending = slot; set_print_sizes(ai);
                 void* p = 0;
                 global_on();
-                if (o == "gnew") p = ::operator new(size, w[4].c_str(), (size_t) vh::to_u64(w[5]));
-                else if (o == "gnewarray") p = ::operator new[](size, w[4].c_str(), (size_t) vh::to_u64(w[5]));
-                else p = cpputest_malloc_location(size, w[4].c_str(), (size_t) vh::to_u64(w[5]));
+                if (form == "new") p = ::operator new(size);
+                else if (form == "new_fi") p = ::operator new(size, file, (int) line);
+                else if (form == "new_fs") p = ::operator new(size, file, line);
+                else if (form == "new_nt") p = ::operator new(size, std::nothrow);
+                else if (form == "newa") p = ::operator new[](size);
+                else if (form == "newa_fi") p = ::operator new[](size, file, (int) line);
+                else if (form == "newa_fs") p = ::operator new[](size, file, line);
+                else if (form == "newa_nt") p = ::operator new[](size, std::nothrow);
+                else p = cpputest_malloc_location(size, file, line);
                 global_off();
-                if (p) { Label l; l.addr = addr_of(p); l.size = size; labels[w[1]] = l; if (slot_base(p)) g_usersize[slot_of(p)] = size; fill_user((char*) p, size); track(p); }
+                if (p) { Label l; l.addr = addr_of(p); l.size = size; labels[w[k]] = l; if (slot_base(p)) g_usersize[slot_of(p)] = size; fill_user((char*) p, size); track(p); }
                 logf("ret %lu", addr_of(p));
                 flush();
             }
-            else if ((o == "gdelete" || o == "gdeletearray" || o == "gfree") && w.size() >= 5 && c06) {
-                // gdelete <label|null|@addr> <delta> <file> <line>: the real operator delete / delete[] / cpputest_free_location
+            else if ((o == "grel" && w.size() >= 6) || ((o == "gdelete" || o == "gdeletearray" || o == "gfree") && w.size() >= 5)) {
+                // grel <form> <label|null|@addr> <delta> <file> <line>: one of the real releasing overloads
+                //   del del_fi del_fs del_sz del_nt  dela dela_fi dela_fs dela_sz dela_nt  free
+                //   (plain, debug placement (p, file, int / size_t line), sized (p, size_t), nothrow placement (p, std::nothrow); [] variants;
+                //    cpputest_free_location); gdelete / gdeletearray / gfree are del / dela / free
+                std::string form = o == "grel" ? w[1] : o == "gdelete" ? "del" : o == "gdeletearray" ? "dela" : "free";
+                size_t k = o == "grel" ? 2 : 1;
+                static const char* forms[] = { "del", "del_fi", "del_fs", "del_sz", "del_nt", "dela", "dela_fi", "dela_fs", "dela_sz", "dela_nt", "free" };
+                bool known = false; for (size_t j = 0; j < 11; j++) if (form == forms[j]) known = true;
                 unsigned long addr;
-                if (!resolve(w[1], w[2], addr) || !line_ok(w[4])) { vh::emit("> skip"); continue; }
-                TestMemoryAllocator* cur = o == "gdelete" ? getCurrentNewAllocator() : o == "gdeletearray" ? getCurrentNewArrayAllocator() : getCurrentMallocAllocator();
+                if (!known || !resolve(w[k], w[k + 1], addr) || !line_ok(w[k + 3])) { vh::emit("> skip"); continue; }
+                const char* file = w[k + 2].c_str(); size_t line = (size_t) vh::to_u64(w[k + 3]);
+                TestMemoryAllocator* cur = form == "free" ? getCurrentMallocAllocator() : form.compare(0, 4, "dela") == 0 ? getCurrentNewArrayAllocator() : getCurrentNewAllocator();
                 int ai = index_of(cur); if (ai < 0) { vh::emit("> skip"); continue; }
-                if (o == "gfree") vh::emit("> gfree %lu %s %lu", addr, w[3].c_str(), (unsigned long) vh::to_u64(w[4]));
-                else vh::emit("> %s %lu", o.c_str(), addr);
+                vh::emit("> grel %s %lu %s %lu", form.c_str(), addr, file, (unsigned long) line);
                 clear_text(); set_print_sizes(ai);
+                char* p = ptr_of(addr);
+                size_t sz = (p && slot_base(p) && g_live[slot_of(p)]) ? g_usersize[slot_of(p)] : 0;     // what a sized delete is told
                 global_on();
-                if (o == "gdelete") ::operator delete(ptr_of(addr));
-                else if (o == "gdeletearray") ::operator delete[](ptr_of(addr));
-                else cpputest_free_location(ptr_of(addr), w[3].c_str(), (size_t) vh::to_u64(w[4]));
+                if (form == "del") ::operator delete(p);
+                else if (form == "del_fi") ::operator delete(p, file, (int) line);
+                else if (form == "del_fs") ::operator delete(p, file, line);
+                else if (form == "del_sz") ::operator delete(p, sz);
+                else if (form == "del_nt") ::operator delete(p, std::nothrow);
+                else if (form == "dela") ::operator delete[](p);
+                else if (form == "dela_fi") ::operator delete[](p, file, (int) line);
+                else if (form == "dela_fs") ::operator delete[](p, file, line);
+                else if (form == "dela_sz") ::operator delete[](p, sz);
+                else if (form == "dela_nt") ::operator delete[](p, std::nothrow);
+                else cpputest_free_location(p, file, line);
                 global_off();
                 flush();
             }
